@@ -62,6 +62,27 @@ def _copy_applies_kwargs(prog: Program, cp: FuncInfo) -> Tuple[bool, str]:
             keys: List[Optional[str]] = []
             vals: List[ast.expr] = []
             if isinstance(v, ast.Dict):
+                # flatten `**part` entries whose value is itself a known mapping construction (dict(k=v), a display)
+                flat_k: List[Optional[ast.expr]] = []
+                flat_v: List[ast.expr] = []
+
+                def flatten(d: ast.Dict, node, depth: int = 0) -> None:
+                    for k_, v_ in zip(d.keys, d.values):
+                        if k_ is None and depth < 3:
+                            parts = fl.alts(node, v_)
+                            if len(parts) == 1 and isinstance(parts[0].expr, ast.Dict):
+                                flatten(parts[0].expr, parts[0].node or node, depth + 1)
+                                continue
+                            if len(parts) == 1 and isinstance(parts[0].expr, ast.Call) and dotted(parts[0].expr.func) == 'dict' and \
+                                    not parts[0].expr.args and all(kw.arg is not None for kw in parts[0].expr.keywords):
+                                for kw in parts[0].expr.keywords:
+                                    flat_k.append(ast.Constant(value=kw.arg))
+                                    flat_v.append(kw.value)
+                                continue
+                        flat_k.append(k_)
+                        flat_v.append(v_)
+                flatten(v, al.node or n)
+                v = ast.copy_location(ast.Dict(keys=flat_k, values=flat_v), v)
                 keys = [k.value if isinstance(k, ast.Constant) else None for k in v.keys]
                 vals = list(v.values)
                 if 'name' not in keys or dotted(vals[keys.index('name')]) != 'self.name':
@@ -375,26 +396,76 @@ def run(ck: Check, prog: Program) -> None:
     why = '__methods__ not recognised'
     if ms is not None:
         ck.functions.add(ms.qualname)
+        from ..flow import Flow as _FlowV
         cfg = CFG(ms, prog)
+        flv = _FlowV(cfg)
         heads = [n for n in cfg.nodes if n.kind == 'next']
         ys = [n for n in cfg.stmt_nodes() if isinstance(n.ast, ast.Expr) and isinstance(n.ast.value, ast.Yield)]
-        if len(heads) == 1 and len(ys) == 1:
-            it = heads[0].ast.iter
-            nv = dotted(heads[0].ast.target)
-            under = False
-            if isinstance(it, ast.Call) and dotted(it.func) == 'filter' and isinstance(it.args[0], ast.Lambda):
-                lam = it.args[0]
-                under = norm(lam.body) == f"not {lam.args.args[0].arg}.startswith('_')" and norm(it.args[1]) == 'dir(cls)'
-            gs = guard_edges(cfg, ys[0])
-            for g in gs:
-                if norm(g.src.ast) == f"{nv}.startswith('_')" and g.label == 'F':
-                    under = under or norm(it) == 'dir(cls)'
-            callable_ok = any(isinstance(g.src.ast, ast.Call) and dotted(g.src.ast.func) == 'callable' and g.label == 'T' for g in gs)
+        if len(heads) == 1 and len(ys) == 1 and isinstance(heads[0].ast.target, ast.Name):
+            # the enumeration is read as a pipeline of stages from dir(cls) to the yield; each stage filters its input element and
+            # maps it to its output element, whatever mixture of loops, comprehensions, filter() and map() spells it
+            stages = []         # outermost first: (target name, [(cond, polarity)], [element expressions])
+            nv = heads[0].ast.target.id
+            loop_guards = [(g.src.ast, g.label == 'T') for g in guard_edges(cfg, ys[0])
+                           if g.src.id in cfg.reachable(heads[0], edge_ok=lambda e: e.label != 'exhausted')]
             yv = ys[0].ast.value.value
-            av = [n for n in cfg.stmt_nodes() if isinstance(n.ast, ast.Assign) and dotted(n.ast.targets[0]) == dotted(yv)]
-            val_ok = len(av) == 1 and norm(av[0].ast.value) == f'getattr(cls, {nv})'
-            okp = under and callable_ok and val_ok
-            why = f'underscore filter={under} callable test={callable_ok} yields getattr(cls, name)={val_ok}'
+            y_alts = [al.expr for al in flv.alts(ys[0], yv)] if yv is not None else []
+            stages.append((nv, loop_guards, y_alts))
+            it_nodes = [m_ for m_ in cfg.nodes if m_.kind == 'iter' and m_.ast is heads[0].ast.iter]
+            cur_n, cur_e = (it_nodes[0] if it_nodes else heads[0]), heads[0].ast.iter
+            source = None
+            for _ in range(6):
+                leafs = [al for al in flv.alts(cur_n, cur_e)]
+                if len(leafs) == 1 and norm(leafs[0].expr) == 'dir(cls)':
+                    source = 'dir(cls)'
+                    break
+                sqs = flv.seq(cur_n, cur_e)
+                if len(sqs) != 1 or sqs[0].kind != 'iter' or sqs[0].target is None or not isinstance(sqs[0].target, ast.Name):
+                    break
+                sq = sqs[0]
+                stages.append((sq.target.id, list(sq.filters), [x.expr for x in sq.elt]))
+                cur_n, cur_e = sq.node or cur_n, sq.iter
+            if source is not None:
+                kind = 'name'
+                under = callable_ok = False
+                bad = []
+                for tname, filters, elts in reversed(stages):
+                    attr_locals = {tname}
+                    for cond, pol in filters:
+                        txt = norm(cond)
+                        m_under = [v for v in attr_locals if txt == f"{v}.startswith('_')"]
+                        if kind == 'name' and m_under and pol is False:
+                            under = True
+                        elif kind == 'name' and txt == f"not {tname}.startswith('_')" and pol is True:
+                            under = True
+                        elif isinstance(cond, ast.Call) and dotted(cond.func) == 'callable' and len(cond.args) == 1 and pol is True:
+                            arg_alts = [norm(cond.args[0])]
+                            if kind == 'attr' and arg_alts[0] == tname or norm(cond.args[0]) in [f'getattr(cls, {tname})'] or \
+                                    (kind == 'name' and any(norm(x) == f'getattr(cls, {tname})' for x in elts)):
+                                callable_ok = True
+                            else:
+                                bad.append(txt)
+                        elif isinstance(cond, ast.Name) and dotted(cond) == 'callable':
+                            # filter(callable, X): the predicate applied to the element
+                            if kind == 'attr':
+                                callable_ok = True
+                            else:
+                                bad.append('callable(<name>)')
+                        else:
+                            bad.append(('' if pol else 'not ') + txt)
+                    new_kind = None
+                    for x in elts:
+                        if isinstance(x, ast.Name) and x.id == tname:
+                            k2 = kind
+                        elif norm(x) == f'getattr(cls, {tname})' and kind == 'name':
+                            k2 = 'attr'
+                        else:
+                            k2 = '?'
+                        new_kind = k2 if new_kind in (None, k2) else '?'
+                    kind = new_kind or kind
+                val_ok = kind == 'attr'
+                okp = under and callable_ok and val_ok and not bad
+                why = f'underscore filter={under} callable test={callable_ok} yields getattr(cls, name)={val_ok}' + (f' other filters={bad}' if bad else '')
     if not okp and 'not recognised' in why:
         raise AnalysisError(f'ViewMixin.__methods__: loop-and-yield form not recognised')
     ck.ob('VIEW-PUBLIC', '__methods__ yields exactly the callables whose name does not start with an underscore', okp, sample={'form': why})
